@@ -26,16 +26,12 @@ theorem inv_glk (n : Nat) (sh : Sh) (pcs : Nat → Pc) (t : Nat) (e : Env) (o : 
       refine ⟨gate_step n sh _ pcs t _ (menvG e) hlt hgI (by rw [hgp, hm, hheld]; simp [gpc, hr]) rfl rfl,
         rl_same n sh _ pcs t _ hlt hrI rfl (by rw [hrp]; simp [rpc, hr]), ?_, hgrp, hwg⟩
       have := hC (.psn o); simp [cntR, hr] at this; simp only []; omega
-    · simp only [acquired, hr, Bool.false_and, Bool.false_eq_true, if_false, if_true, Option.some.injEq, Prod.mk.injEq] at hts
+    · -- a reader has taken the gate: it holds it itself until its `*r += 1`
+      simp only [acquired, hr, Bool.false_and, Bool.false_eq_true, if_false, if_true, Option.some.injEq, Prod.mk.injEq] at hts
       obtain ⟨rfl, rfl⟩ := hts
-      have hacq := gate_acq_grp n sh { sh with g := g', r := sh.r + 1, grp := true } pcs t (.psn o) (menvG e) hlt hgI
-        (by rw [hgp, hm, hheld]) (by simp [gpc, hr]) rfl rfl
-      have := hC (.psn o); simp [cntR, hr] at this
-      refine ⟨hacq.1, rl_same n sh _ pcs t _ hlt hrI rfl (by rw [hrp]; simp [rpc, hr]), ?_, ?_, hwg⟩
-      · simp only []; omega
-      · simp only []; constructor
-        · intro _; omega
-        · intro _; trivial
+      refine ⟨gate_step n sh _ pcs t _ (menvG e) hlt hgI (by rw [hgp, hm, hheld]; rfl) rfl rfl,
+        rl_same n sh _ pcs t _ hlt hrI rfl (by rw [hrp]; simp [rpc, hr]), ?_, hgrp, hwg⟩
+      have := hC (.rinc o true); simp [cntR] at this; simp only []; omega
   next hnh =>
   split at hts
   next hidle =>
